@@ -7,6 +7,7 @@ pub mod fromval;
 pub mod gen;
 pub mod layout;
 pub mod prng;
+pub mod runaway;
 pub mod tables;
 pub mod val;
 
